@@ -2,7 +2,8 @@
    Print Assumptions on every one of them on every check run. *)
 From Coq Require Import List NArith ZArith Bool Arith Sorted.
 From Kenlm Require Import C11.FilterSpec C11.IntersectModel C11.FilterModel C11.IntersectProofs C11.VocabProofs
-  C11.TokenProofs C11.OutputProofs C11.QueryProofs C11.PhraseProofs C11.ReaderProofs.
+  C11.TokenProofs C11.OutputProofs C11.QueryProofs C11.PhraseProofs C11.ReaderProofs
+  C11.PhraseGraphModel C11.PhraseSearchProofs C11.PhraseTableProofs C11.PhraseGraphProofs.
 Import ListNotations.
 
 (* util/multi_intersection.hh on sorted posting lists: FirstIntersection returns the least common element (or
@@ -95,16 +96,25 @@ Proof.
   - exact (query_equivalence_multiple sents j ctx m c x).
 Qed.
 
-(* Phrase mode.  FULL STATEMENT WANTED (C11_phrase_complete): the Vertex/Arc::LowerBound graph search of
-   lm/filter/phrase.cc keeps every n-gram that can be read off a concatenation of one sentence's phrases.
-   PROVED HERE: the executable decision procedure of the model (FilterModel.derivable_b: infix of a phrase, or
-   non-empty suffix . whole phrases . prefix) decides `derivable` exactly -- complete AND sound -- and so do the
-   model's union / multiple phrase filters.  MISSING: a model of the priority-queue search itself (Substrings
-   tables, Arc/Vertex lower bounds) with its invariant; the real search is tied to derivable_b by differential
-   execution on every run (bytes of bin/filter ... phrase vs the extracted model) and by the specification oracle. *)
-Theorem C11_phrase_complete_partial : forall sents ws,
+(* Phrase mode, specification side: the decision procedure used by the tool model (FilterModel.derivable_b: infix of a
+   phrase, or non-empty suffix . whole phrases . prefix) decides the declarative predicate `derivable` exactly --
+   complete AND sound -- and so do the model's union / multiple phrase filters. *)
+Theorem C11_phrase_decision_exact : forall sents ws,
   (phrase_union_pass sents ws = true <->
      phrase_words ws = [] \/ exists s, In s sents /\ derivable s (phrase_words ws)) /\
   (forall j, In j (phrase_multiple_targets sents ws) <->
      j < length sents /\ (phrase_words ws = [] \/ derivable (nth j sents []) (phrase_words ws))).
 Proof. intros. split; [exact (phrase_union_exact sents ws)|exact (phrase_multiple_exact sents ws)]. Qed.
+
+(* Phrase mode, implementation side: the structure-faithful model of lm/filter/phrase.{hh,cc} (PhraseGraphModel.v:
+   Substrings::AddPhrase tables, BuildGraph, the mutually recursive Arc::LowerBound / Vertex::LowerBound search with
+   its lazily advanced pointers, Union::Evaluate / Multiple::Evaluate) keeps EVERY n-gram that can be read off a
+   concatenation of one sentence's phrases -- the direction the property claims -- and never runs out of fuel
+   (the search terminates within the model's fuel for every vocabulary and n-gram).
+   Hashes are the word sequences themselves (64-bit hashes treated as injective; a collision only adds sentences). *)
+Theorem C11_phrase_complete : forall sents ws,
+  (exists r, graph_union_pass sents ws = Ok r /\
+     ((exists t, t < length sents /\ derivable (nth t sents []) (phrase_words ws)) -> r = true)) /\
+  (exists l, graph_multiple_targets sents ws = Ok l /\
+     forall t, t < length sents -> (phrase_words ws = [] \/ derivable (nth t sents []) (phrase_words ws)) -> In t l).
+Proof. intros. split; [exact (graph_union_complete sents ws)|exact (graph_multiple_complete sents ws)]. Qed.
